@@ -30,6 +30,37 @@ def main():
                         from pgradd.GroupAdd.Scheme import GroupAdditivityScheme
                         libs[o['obj']] = GroupLibrary(GroupAdditivityScheme.Load(o['lib']))
                         r['fp'] = fingerprint(libs[o['obj']])[0]
+                    elif o['op'] == 'share':
+                        # a second library object carrying the SAME scheme object as another one (hand-built from it)
+                        libs[o['obj']] = GroupLibrary(libs[o['of']].scheme)
+                        libs[o['obj']].Update(libs[o['of']])
+                        r['fp'] = fingerprint(libs[o['obj']])[0]
+                    elif o['op'] == 'tagload':
+                        # a user-registered property-set type, registered now (once per process), then a library that carries such data
+                        from pgradd import yaml_io
+                        if not getattr(GroupLibrary, '_verif_tag', False):
+                            class Tag(object):
+                                def __init__(self, value):
+                                    self.value = value
+
+                                @classmethod
+                                def yaml_construct(cls, params, context):
+                                    return cls(params['value'])
+
+                                def copy(self):
+                                    return Tag(self.value)
+
+                            class TagEstimate(object):
+                                def __init__(self, lib, groups):
+                                    self.total = sum(groups[g] * lib[g]['tag'].value for g in groups)
+                            yaml_io.register_class('TagGroup', yaml_io.parse('value:\n  type: float\n'), Tag)
+                            GroupLibrary.register_property_set_type('tag', 'TagGroup', TagEstimate)
+                            GroupLibrary._verif_tag = True
+                        libs[o['obj']] = GroupLibrary.Load(o['path'])
+                        L_ = libs[o['obj']]
+                        r['sets'] = sorted([str(k), sorted(L_[k])] for k in L_)
+                        r['tag_total'] = float(L_.Estimate({k: 2 for k in L_}, 'tag').total)
+                        r['fp'] = fingerprint(L_)[0]
                     elif o['op'] == 'decompose':
                         d = libs[o['obj']].GetDescriptors(o['smiles'])
                         dec[(o['obj'], o['smiles'])] = d
